@@ -29,7 +29,7 @@ def emit_std(case, ranks, o, model):
     if k == 'def_var':
         return case.op(ranks, 'def_var', f=0, name=nm(o['name']), xtype=D.XT_NAME.get(o['xtype'], o['xtype']), dims=o.get('dims') or None)
     if k == 'set_fill': return case.op(ranks, 'set_fill', f=0, mode=int(o['mode']))
-    if k == 'def_var_fill': return case.op(ranks, 'def_var_fill', f=0, v=o['v'], nofill=int(o.get('nofill', 0)))
+    if k == 'def_var_fill': return case.op(ranks, 'def_var_fill', f=0, v=o['v'], nofill=int(o.get('nofill', 0)), xtype=(D.XT_NAME[o['xtype']] if o.get('val') is not None else None), val=o.get('val'))
     if k == 'put_att':
         xt = o['xtype']
         vals = list(o['vals']) if isinstance(o['vals'], (bytes, bytearray)) else o['vals']
@@ -94,6 +94,7 @@ def cmp_sweep(model, sw):
         if g['rc'] != 0 or g['n'] != e['n']: return 'var %d: name %s, model %s' % (i, bytes.fromhex(g['n']), bytes.fromhex(e['n']))
         if g['t'] != e['t'] or g['dimids'] != e['dimids']: return 'var %s: type/dimids %s/%s, model %s/%s' % (bytes.fromhex(e['n']), g['t'], g['dimids'], e['t'], e['dimids'])
         if g['id'] != i: return 'var %s: inq_varid returns %s, expected %d (lookup by name disagrees with lookup by id)' % (bytes.fromhex(e['n']), g['id'], i)
+        if e.get('nofill') is not None and g.get('nofill') != e['nofill']: return 'var %s: inq_var_fill reports no_fill=%s, model %s' % (bytes.fromhex(e['n']), g.get('nofill'), e['nofill'])
         r = cmp_atts('var %s' % bytes.fromhex(e['n']), e['atts'], g['atts'])
         if r: return r
     return None
